@@ -730,13 +730,25 @@ def c14(tier):
     if tier == "quick":
         graphs = ["indep3", "chain3", "fork"]
         tasks = cancel_tasks(["C14"], (0, 0), graphs, params=[("sz1-mx1", dict(size=1, max_nodes=1))])
+        tb = cancel_tasks(["C14"], (0, 0), ["indep3", "chain3"], followups=False,
+                          params=[("tb2-mx1", dict(time_based=True, walltime="0:02:00", nproc=1, max_nodes=1))])
+        for t in tb:
+            for j in t["scen"]["jobs"]:
+                j["est"] = 2
+        tasks += tb
         tasks += cancel_tasks(["C14"], (0, 0), graphs + ["join", "twocomp"], followups=False,
                               params=[("sz1-mxN", dict(size=1, max_nodes=None)), ("sz2-mx2", dict(size=2, max_nodes=2))])
     else:
         graphs = ["indep3", "chain3", "fork", "join", "diamond", "twocomp", "indep4"]
         tasks = shard(cancel_tasks(["C14"], (1, 0), graphs), 4)
+        tb = cancel_tasks(["C14"], (1, 0), ["indep3", "chain3", "fork"],
+                          params=[("tb2-mx1", dict(time_based=True, walltime="0:02:00", nproc=1, max_nodes=1))])
+        for t in tb:
+            for j in t["scen"]["jobs"]:
+                j["est"] = 2
+        tasks += shard(tb, 4)
         tasks += shard(cancel_tasks(["C14"], (2, 0), ["indep3", "chain3"], followups=False), 32)
-    bounds = (f"{len(graphs)} REP graphs x max-nodes {{1,unset}} with cancel-jobs starting at any point (free first step) followed by every sequence of length <=2 over "
+    bounds = (f"{len(graphs)} REP graphs x max-nodes {{1,unset}} (count-based and time-based batching) with cancel-jobs starting at any point (free first step) followed by every sequence of length <=2 over "
               f"{{try-submit-jobs, show-status -n}} and the surviving nodes' rounds; " + ("budget 0 (cancel at every point, default continuation, all job-finish orders and lingering-CANCELLED answers)" if tier == "quick" else "1 preemption for all, 2 for the no-follow-up scenarios on 2 graphs"))
     return explore_check("C14", tier, tasks, S_RULE, COMMON_ASSUMPTIONS + ["scancel kills the node at once; a cancelled batch may linger in squeue as CANCELLED (zero-cost choice per query)"], dict(bounds=bounds))
 
